@@ -56,7 +56,18 @@ class Stub:
         def call(*args, **kwargs):
             if getattr(m, "native", None) is not None:
                 return m.native(self, rec, *args, **kwargs)
+            if getattr(m, "raises", None) and not getattr(m, "is_async", False):
+                # the model's choice for this call of a collaborator method that may fail
+                full = f"{ext.__name__}.{name}"
+                calls = CURRENT.setdefault("sync_calls", {})
+                nth = calls.get(full, 0)
+                calls[full] = nth + 1
+                exc = (CURRENT.get("sync_raises") or {}).get((full, nth))
+                if exc is not None:
+                    rec.add((f"{full}!raise", self, tuple(args), dict(kwargs)))
+                    raise exc
             if m.effect:
+                _native_at_effect(f"{ext.__name__}.{name}", args, kwargs)
                 rec.add((f"{ext.__name__}.{name}", self, tuple(args), dict(kwargs)))
             for k_, v_ in getattr(m, "sets", {}).items():
                 object.__setattr__(self, k_, v_)
@@ -89,8 +100,44 @@ class Stub:
         return f"<stub {object.__getattribute__(self, '_ext').__name__}>"
 
 
+class _Opq(str):
+    """Native stand-in of a value the analysis knows nothing about: a distinct token (a string, so that equality,
+    hashing and formatting behave) whose entries under string keys are tokens again (an opaque mapping such as the
+    validated configuration; the engine's model of `m["key"]` on an opaque value)."""
+
+    def __getitem__(self, k):
+        if isinstance(k, str):
+            return _Opq(f"{str(self)}[{k}]")
+        return str.__getitem__(self, k)
+
+
 _NOVALUE = object()
-CURRENT = {"controller": None, "observe": None, "rec": None}
+CURRENT = {"controller": None, "observe": None, "rec": None, "at": None}
+
+
+def _native_at_effect(name, args, kwargs):
+    """`at_effect` clauses of the contract under replay, judged natively at the moment the call is made (state and
+    effects so far), like the engine checks them at the moment it meets the call."""
+    at = CURRENT.get("at")
+    rec = CURRENT.get("rec")
+    if at is None or rec is None or rec.depth != 0:
+        return
+    con = at["con"]
+    for ename, cid, lam in getattr(con, "effect_asserts", []):
+        if ename != name:
+            continue
+        full = f"{con.qualname}::at[{name}].{cid}"
+        try:
+            ctx = Ctx()
+            I = Interp(ctx, REGISTRY)
+            I.native = True
+            env = {**at["bindings"], "fx": list(rec.fx), "eargs": tuple(args), "ekwargs": dict(kwargs)}
+            code = lam.__code__
+            names = code.co_varnames[: code.co_argcount + code.co_kwonlyargcount]
+            v = eval_clause(I, lam, {n: env[n] for n in names if n in env}, native_old=at["old"])
+            at["out"].append((full, bool(v), "judged natively at the moment of the call"))
+        except Exception as e:  # a clause that cannot be evaluated natively is no verdict
+            at["out"].append((full, None, f"clause evaluation failed: {e!r}"))
 
 
 async def _park(kind, default=None):
@@ -168,7 +215,7 @@ class Builder:
             if "__class__" in j:
                 return _resolve(j["__class__"])
             if "__opaque__" in j:
-                return f"<{j['kind']}:{j['__opaque__']}>"
+                return _Opq(f"<{j['kind']}:{j['__opaque__']}>")
             if "__future__" in j:
                 loop = self.loop or asyncio.new_event_loop()
                 self.loop = loop
@@ -301,6 +348,15 @@ class FutureView:
         self._exc = fut.exception() if self._done and not self._cancelled else None
         self._res = fut.result() if self._done and not self._cancelled and self._exc is None else None
 
+    # a view stands for the future it was taken of: membership / equality tests in clauses (`f in old(listeners)`)
+    def __eq__(self, other):
+        if isinstance(other, FutureView):
+            return self._fut is other._fut
+        return self._fut is other
+
+    def __hash__(self):
+        return id(self._fut)
+
     def state(self):
         if not self._done:
             return 0
@@ -350,6 +406,7 @@ class wrap_callees:
                     async def w(self_, *a, **k):
                         # modular replay: the callee behaves as the model chose within its contract
                         _native_observe("call:" + name, a)
+                        _native_at_effect(name, a, k)
                         rec.add(("call", name, tuple(a), dict(k)))
                         if CURRENT["controller"] is None:
                             rec.depth += 1
@@ -372,6 +429,7 @@ class wrap_callees:
                 else:
                     def w(self_, *a, **k):
                         _native_observe("call:" + name, a)
+                        _native_at_effect(name, a, k)
                         rec.add(("call", name, tuple(a), dict(k)))
                         rec.depth += 1
                         try:
@@ -490,11 +548,54 @@ def _same(a, b):
         return a is b
 
 
-def run_native(con: Contract, inputs, only=None, awaits=None):
+def run_native_repeated(con: Contract, inputs, only=None, awaits=None):
+    """Short native history for a counter-model that depends on attributes the contract's state does not declare: the
+    same call is made twice on one object.  The first call starts from the constructor's values of those attributes
+    (declared state as in the counter-model); the second starts from the counter-model's declared state again and from
+    whatever the *real code* left in the undeclared attributes -- so their values are reached, not invented.  Judged
+    on the second call.  None when the constructor's values are not literals (nothing can be said)."""
+    spec = con.self_spec
+    if spec is None or not isinstance(inputs.get("self"), dict) or "fields" not in inputs["self"]:
+        return None
+    aux, init = spec.aux_fields(), spec.aux_init()
+    if not aux or any(k not in init for k in aux if k in inputs["self"]["fields"]):
+        return None
+
+    def start_values():
+        out = {}
+        for k, (how, v) in init.items():
+            out[k] = v if how == "const" else {"set": set, "dict": dict, "list": list}[v]()
+        return out
+
+    first = run_native(con, inputs, only=only, awaits=awaits, aux_override=start_values())
+    if "error" in first:
+        return {"error": "first call of the history: " + first["error"]}
+    carried = first.get("__aux_after__") or {}
+    second = run_native(con, inputs, only=only, awaits=awaits, aux_override=carried)
+    if "error" not in second:
+        second["mode"] = ("history of two identical calls on one object: undeclared attributes start at the constructor's "
+                          f"values {sorted(init)} and are carried from the first call to the second by the real code; "
+                          + second.get("mode", ""))
+        second["first_call"] = {"outcome": first.get("outcome"), "fx": first.get("fx")}
+    second.pop("__aux_after__", None)
+    return second
+
+
+def run_native(con: Contract, inputs, only=None, awaits=None, aux_override=None):
     """inputs: concretized bindings (JSON form).  Returns dict(outcome, judgements, fx)."""
     rec = Recorder()
     builder = Builder(rec)
+    inputs = dict(inputs)
+    sync_outcomes = inputs.pop("__sync_outcomes__", None) or []
     bindings = {k: builder.build(v) for k, v in inputs.items()}
+    if aux_override is not None and bindings.get("self") is not None:
+        for k_, v_ in aux_override.items():
+            try:
+                object.__setattr__(bindings["self"], k_, v_)
+            except Exception:
+                pass
+    CURRENT["sync_raises"] = {(r["name"], r["nth"]): builder.build(r["exc"]) for r in sync_outcomes}
+    CURRENT["sync_calls"] = {}
     fn = _resolve(con.qualname)
     raw = fn
     old_bindings = _deepcopy_state(bindings)
@@ -513,6 +614,7 @@ def run_native(con: Contract, inputs, only=None, awaits=None):
 
     CURRENT["rec"] = rec
     CURRENT["observe"] = (con.observe_, rec, bindings) if con.observe_ is not None else None
+    CURRENT["at"] = {"con": con, "bindings": bindings, "old": old_bindings, "out": []}
     import contextlib
 
     nctx = con.native_context(bindings, rec) if getattr(con, "native_context", None) is not None else contextlib.nullcontext()
@@ -537,12 +639,29 @@ def run_native(con: Contract, inputs, only=None, awaits=None):
         CURRENT["controller"] = None
         CURRENT["observe"] = None
     judgements = judge(con, bindings, old_bindings, result, raised, rec.fx, only=only)
+    aux_after = None
+    if aux_override is not None and con.self_spec is not None and bindings.get("self") is not None:
+        aux_after = {k_: getattr(bindings["self"], k_) for k_ in con.self_spec.aux_fields() if hasattr(bindings["self"], k_)}
+    at_out = (CURRENT.get("at") or {}).get("out", [])
+    CURRENT["at"] = None
+    seen_at = set()
+    for full, ok, d in at_out:
+        if only is not None and full not in only:
+            continue
+        # several calls of one effect: the clause must hold at each, so one failure decides
+        prev = [j for j in judgements if j[0] == full]
+        if prev:
+            if ok is False and prev[0][1] is not False:
+                judgements[judgements.index(prev[0])] = (full, False, d)
+            continue
+        judgements.append((full, ok, d))
     return {
         "outcome": "return" if raised is None else f"raise:{type(raised).__name__}: {raised!r}",
         "result": repr(result)[:300],
         "fx": [repr(r)[:300] for r in rec.fx][:60],
         "judgements": [(n, ok, d) for n, ok, d in judgements],
         "replay_log": getattr(builder, "replay_log", None),
+        **({"__aux_after__": aux_after} if aux_after is not None else {}),
         "mode": ("coroutine on a virtual-clock loop; interference realised by state injection; contracted "
                  "callees and external collaborators stubbed per the model") if awaits else "direct call",
     }
